@@ -353,7 +353,10 @@ func (ef *Filter) filterField(ctx context.Context, v reflect.Value, filterOverri
 				break
 			}
 		}
-		opt = append(opt[:removeIdx], opt[removeIdx+1:]...)
+		// work on a copy: opt shares its backing array with the caller's options
+		stripped := make([]Option, 0, len(opt))
+		stripped = append(stripped, opt[:removeIdx]...)
+		opt = append(stripped, opt[removeIdx+1:]...)
 	}
 
 	for i := 0; i < v.Type().NumField(); i++ {
@@ -458,8 +461,10 @@ func (ef *Filter) filterField(ctx context.Context, v reflect.Value, filterOverri
 				// okay, we've dealt with the "Taggable" things, let's check for other
 				// fields that need to be filtered, but be sure to ignore taggable
 				// on the next recursion or will be in an infinite loop
-				opt = append(opt, withIgnoreTaggable())
-				if err := ef.filterField(ctx, field, filterOverrides, tm, opt...); err != nil {
+				// (the flag is for that recursion only, and must not be written
+				// into the backing array the caller's options live in)
+				fieldOpt := append(opt[:len(opt):len(opt)], withIgnoreTaggable())
+				if err := ef.filterField(ctx, field, filterOverrides, tm, fieldOpt...); err != nil {
 					return fmt.Errorf("%s: %w", op, err)
 				}
 			}
@@ -511,8 +516,10 @@ func (ef *Filter) filterTaggable(ctx context.Context, t Taggable, filterOverride
 		}
 		rv := reflect.Indirect(reflect.ValueOf(value))
 		info := getClassificationFromTagString(fmt.Sprintf("%s,%s", pt.Classification, pt.Filter), withFilterOperations(filterOverrides))
-		opt = append(opt, withPointer(t, pt.Pointer))
-		if err = ef.filterValue(ctx, rv, info, opt...); err != nil {
+		// the pointer option belongs to this tag only: never append it in
+		// place, opt shares its backing array with the caller's options
+		tagOpt := append(opt[:len(opt):len(opt)], withPointer(t, pt.Pointer))
+		if err = ef.filterValue(ctx, rv, info, tagOpt...); err != nil {
 			return fmt.Errorf("%s: %w", op, err)
 		}
 		if err := tm.trackTaggable(t, pt.Pointer); err != nil {
